@@ -323,8 +323,14 @@ func (e *Eval) applyContract(fr *Frame, k *Contract, pkg *ssa.Package, pnames []
 		if len(cl.Props) > 0 {
 			e.oblige(fmt.Sprintf("requires@%s/%s", site, clauseLabel(cl, k.Requires)), "requires@call", cl.Props, cur, env.evalGoal(ex), cl.Text, cl.Where)
 		}
-		// after the check the caller may rely on it
-		c.Assert(implies(cur, env.evalBool(ex)))
+		// A precondition that is an obligation is NOT assumed afterwards: a
+		// violated precondition of one property must not prune the paths on
+		// which another property's obligations are decided (a seeded change
+		// was masked that way). Preconditions without a property tag are
+		// modelling assumptions and are assumed.
+		if len(cl.Props) == 0 {
+			c.Assert(implies(cur, env.evalBool(ex)))
+		}
 	}
 	post := st.Clone()
 	e.curSt = post
